@@ -619,6 +619,10 @@ func UpdateSnapshotCount(count int) {
 	for k := curEpoch - oldCount + 1; k < curEpoch-count; k++ {
 		dropNetmap(ctx, k)
 	}
+	if count < oldCount {
+		// the loop above stops one short: epoch curEpoch-count is out of history too
+		dropNetmap(ctx, curEpoch-count)
+	}
 }
 
 func moveSnapshot(ctx storage.Context, from, to int) {
